@@ -18,7 +18,7 @@ def bpOf (rows : List Row) (levels : List Level) (j : Nat) : Nat :=
     | some s =>
       match rows.find? (·.sym == s) with
       | some row =>
-        if L.kind == .prefix then (match row.nud with | .prefix r => 2 * r + 1 | _ => 0) else 2 * row.lbp
+        if L.kind == .prefix then (match row.nud with | .prefix r _ => 2 * r + 1 | _ => 0) else 2 * row.lbp
       | none => 0
     | none => 0
   | none => 0
@@ -116,19 +116,20 @@ def trigF04a (rows : List Row) (spec : Tree) : Bool :=
 /-- first token of a tree -/
 def firstTok (t : Tree) : Option Tok := t.yield.head?
 
-def isUnaryLookupTok : Option Tok → Bool
-  | some (.atom k _) => decide (4 ≤ k) && decide (k ≤ 6)
+/-- the token is the lookup symbol `?` -/
+def isLookupTok (rows : List Row) : Option Tok → Bool
+  | some (.op q) => symOf rows q == "?"
   | _ => false
 
 /-- F04d trigger: the W3C derivation has a path step whose left operand is a postfix / unary lookup (3.1), or
-whose right operand starts with a variable reference (2.0) or a unary lookup (3.1).  or (1.0) whose left operand is a static function call (`id('a')/b`; repaired on branch fix-c04-2).  (The 1.0 case
-"left operand a parenthesised expression" was repaired in /repo and is no longer part of the trigger.) -/
+whose right operand starts with a variable reference (2.0) or a unary lookup (3.1).
+(The 1.0 cases — left operand a parenthesised expression or a function call — were repaired in /repo and are
+no longer part of the trigger.) -/
 def trigF04d (ver : Nat) (rows : List Row) (spec : Tree) : Bool :=
   anyNode (fun t => match t with
     | .bin o l r => isPath (some (symOf rows o)) &&
-        ((ver == 10 && (match l with | .atom 10 _ => true | _ => false)) ||
-         (ver == 31 && (binSym rows l == some "?" || (match l with | .atom k _ => decide (4 ≤ k) && decide (k ≤ 6) | _ => false) ||
-            isUnaryLookupTok (firstTok r))) ||
+        ((ver == 31 && (binSym rows l == some "?" ||
+            (match l with | .pre q _ => symOf rows q == "?" | _ => false) || isLookupTok rows (firstTok r))) ||
          (ver == 20 && (match firstTok r with | some (.atom 2 _) => true | _ => false)))
     | _ => false) spec
 
@@ -160,9 +161,11 @@ against the grammar `G` the table is consistent with:
 * L3 an optional-once comparison whose left operand is a comparison of a *different* guard class, or a
   `<<` / `>>` (no guard class) -/
 def nodeLaxOk (rows : List Row) (G : Gram) : Tree → Bool
-  | .pre p x => match G.pre p with
-      | some j => decide (j ≤ lvl G x) || x.isPre
-      | none => false
+  | .pre p x =>
+      if G.ulk p then x.isKeySpec
+      else match G.pre p with
+        | some j => decide (j ≤ lvl G x) || x.isPre
+        | none => false
   | .bin o l r => match G.led o with
       | some (j, .left) => (decide (j ≤ lvl G l) || l.isTyped) && (decide (j + 1 ≤ lvl G r) || r.isPre)
       | some (j, .none) =>
@@ -295,7 +298,7 @@ def notLedBuilt : Tree → Bool
 /-- in every tree returned by the parser, the operand of a prefix symbol whose nud-rbp dominates all
 binding powers is closed before any binary / typed / postfix operator applies: the operator that follows
 takes the whole prefix expression as its left operand -/
-theorem dominant_prefix_operand (rows : List Row) (p r : Nat) (hp : (tableOf rows).nud p = .prefix r)
+theorem dominant_prefix_operand (rows : List Row) (p r : Nat) (hp : ∃ rhs, (tableOf rows).nud p = .prefix r rhs)
     (hdom : dominates rows r = true) :
     ∀ t, WFr (tableOf rows) t → anyNode (fun n => match n with
       | .pre q x => q == p && !notLedBuilt x
@@ -322,13 +325,15 @@ theorem dominant_prefix_operand (rows : List Row) (p r : Nat) (hp : (tableOf row
   | pre q x ih =>
     intro h
     cases hn : (tableOf rows).nud q <;> simp only [WFr, hn] at h
-    rename_i rq
-    obtain ⟨hx, hgt⟩ := h
+    rename_i rq rhsq
+    obtain ⟨hx, hgt, -⟩ := h
     have h0 : (q == p && !notLedBuilt x) = false := by
       by_cases hqp : q = p
       · subst hqp
+        obtain ⟨rhs, hp⟩ := hp
         rw [hp] at hn
         simp only [Nud.prefix.injEq] at hn
+        obtain ⟨hn, -⟩ := hn
         subst hn
         cases x with
         | bin o l r' =>
@@ -370,6 +375,6 @@ theorem dominant_prefix_operand (rows : List Row) (p r : Nat) (hp : (tableOf row
 
 /-- the table with the `nud` of symbol `s` replaced by a plain prefix with the given rbp -/
 def withPrefixNud (rows : List Row) (s : String) (r : Nat) : List Row :=
-  rows.map fun row => if row.sym == s then { row with nud := .prefix r } else row
+  rows.map fun row => if row.sym == s then { row with nud := .prefix r [] } else row
 
 end EPV.Pratt
